@@ -61,7 +61,9 @@ type Store[H header.Header[H]] struct {
 	pending *batch[H]
 	// syncCh is a channel used to synchronize writes
 	syncCh chan chan struct{}
-	cancel context.CancelFunc
+	// flushCh is like syncCh, but additionally forces the pending batch onto disk
+	flushCh chan chan struct{}
+	cancel  context.CancelFunc
 
 	onDeleteMu sync.Mutex
 	onDelete   []func(context.Context, uint64) error
@@ -120,6 +122,7 @@ func newStore[H header.Header[H]](ds datastore.Batching, opts ...Option) (*Store
 		writesDn:    make(chan struct{}),
 		pending:     newBatch[H](params.WriteBatchSize),
 		syncCh:      make(chan chan struct{}),
+		flushCh:     make(chan chan struct{}),
 		Params:      params,
 	}, nil
 }
@@ -172,9 +175,19 @@ func (s *Store[H]) Stop(ctx context.Context) error {
 
 // Sync ensures all pending writes are synchronized. It blocks until the operation completes or fails.
 func (s *Store[H]) Sync(ctx context.Context) error {
+	return s.sync(ctx, s.syncCh)
+}
+
+// syncFlush is Sync that additionally writes the pending batch (together with the head and tail
+// pointers) to disk, however small the batch is.
+func (s *Store[H]) syncFlush(ctx context.Context) error {
+	return s.sync(ctx, s.flushCh)
+}
+
+func (s *Store[H]) sync(ctx context.Context, reqCh chan chan struct{}) error {
 	waitCh := make(chan struct{})
 	select {
-	case s.syncCh <- waitCh:
+	case reqCh <- waitCh:
 	case <-s.writesDn:
 		return errStoppedStore
 	case <-ctx.Done():
@@ -450,23 +463,8 @@ func (s *Store[H]) Append(ctx context.Context, headers ...H) error {
 func (s *Store[H]) flushLoop(ctx context.Context) {
 	defer close(s.writesDn)
 
-	flush := func(headers []H) {
-		s.ensureInit(headers)
-		// add headers to the pending and ensure they are accessible
-		s.pending.Append(headers...)
-		// always inform heightSub about new headers seen.
-		s.heightSub.Notify(getHeights(headers...)...)
-		// advance head and tail if we don't have gaps.
-		// TODO(@Wondertan): Beware of the performance penalty of this approach, which always makes a at least one
-		// datastore lookup for both Tail and Head.
-		s.advanceHead(ctx)
-		s.recedeTail(ctx)
-		// don't flush and continue if pending batch is not grown enough,
-		// and Store is not stopping(headers == nil)
-		if s.pending.Len() < s.Params.WriteBatchSize && headers != nil {
-			return
-		}
-
+	// write writes the whole pending batch on disk, retrying until it succeeds
+	write := func() {
 		startTime := time.Now()
 		toFlush := s.pending.GetAll()
 
@@ -494,24 +492,53 @@ func (s *Store[H]) flushLoop(ctx context.Context) {
 		s.pending.Reset()
 	}
 
+	flush := func(headers []H) {
+		s.ensureInit(headers)
+		// add headers to the pending and ensure they are accessible
+		s.pending.Append(headers...)
+		// always inform heightSub about new headers seen.
+		s.heightSub.Notify(getHeights(headers...)...)
+		// advance head and tail if we don't have gaps.
+		// TODO(@Wondertan): Beware of the performance penalty of this approach, which always makes a at least one
+		// datastore lookup for both Tail and Head.
+		s.advanceHead(ctx)
+		s.recedeTail(ctx)
+		// don't flush and continue if pending batch is not grown enough,
+		// and Store is not stopping(headers == nil)
+		if s.pending.Len() < s.Params.WriteBatchSize && headers != nil {
+			return
+		}
+		write()
+	}
+
+	// drain applies everything queued in writes; reports false on the signal to stop
+	drain := func() bool {
+		for {
+			select {
+			case headers := <-s.writes:
+				flush(headers)
+				if headers == nil {
+					return false
+				}
+			default:
+				return true
+			}
+		}
+	}
+
 	for {
 		select {
 		case dn := <-s.syncCh:
-			for {
-				select {
-				case headers := <-s.writes:
-					flush(headers)
-					if headers == nil {
-						// a signal to stop
-						return
-					}
-					continue
-				default:
-				}
-
-				close(dn)
-				break
+			if !drain() {
+				return
 			}
+			close(dn)
+		case dn := <-s.flushCh:
+			if !drain() {
+				return
+			}
+			write()
+			close(dn)
 		case headers := <-s.writes:
 			flush(headers)
 			if headers == nil {
